@@ -532,7 +532,7 @@ def run(ctx):
                             'fresh index of a copy of the output by fast_generate_index(force_reindex), FileIndex load of the written .p1i, second extraction into a '
                             'third path, extraction over an output location that already holds an earlier output (files put there, or a first extraction with / without index; second with / without index); '
                             'the p1_extract tool as a subprocess on a sample, and p1_extract.main() in-process in %d sequences of 2-3 captures lying in one directory (names .bin/.raw/.rtcm3/none, all written before the first run) '
-                            'extracted one after the other into the same -o/-p output (shapes: messages then message-free, messages then other messages, message-free then messages, same input twice, the same capture at other P1 times = equal output size but other index times ...); the .p1i bytes (times, types, offsets, marker) are compared with the model after every step. A case is distinct by the SHA-1 of the file.' % (len(ALL_KINDS), ', '.join(ALL_KINDS), 1500 if ctx.thorough else 150, 66 if ctx.thorough else 22))
+                            'extracted one after the other with varied options (prefixes ending in . p 1 l o g and in .p1log, pairs of prefixes sharing a stem, -o given / tool default, input passed as file or as directory, relative / absolute paths); after each step the whole directory tree is diffed: exactly <dir>/<prefix>.p1log and its .p1i may change (shapes: messages then message-free, messages then other messages, message-free then messages, same input twice, the same capture at other P1 times = equal output size but other index times ...); the .p1i bytes (times, types, offsets, marker) are compared with the model after every step. A case is distinct by the SHA-1 of the file.' % (len(ALL_KINDS), ', '.join(ALL_KINDS), 1500 if ctx.thorough else 150, 66 if ctx.thorough else 22))
     ctx.coverage['exhaustive'] = False
     ctx.trusted_base += ['Coq 8.16.1 kernel + vm_compute', 'extraction (ExtrOcamlBasic only), ocaml/conv.ml + c18_driver.ml',
                          'payload classes (cls().unpack / get_p1_time) are a parameter p1 of the model: the theorems hold for every p1; the correspondence run fills it with the values the library computes on the exact payload bytes (codec = C01)',
@@ -575,13 +575,31 @@ def app_sequences(ctx, model, cases):
         c = r.choice(withm)
         z = r.choice(without)
         seqs.append([{'A': a, 'C': c, 'Z': z, 'T': twins.get(a, c)}[ch] for ch in sh])
-    names = ['cap%d.bin', 'cap%d.raw', 'cap%d', 'cap%d.rtcm3']
+    # option values of the application entry point, varied per sequence / per step
+    PREFIXES = ['out', 'session', 'session1', 'nav_log', 'gps_l1', 'run.', 'cap.p1log', 'p1', 'x.p', 'go', 'a1l', 'data2', 'log', None]
+    fnames = ['cap%d.bin', 'cap%d.raw', 'cap%d', 'cap%d.rtcm3']
+    dir_inputs = ['input.raw', 'input.bin', 'input.rtcm3']          # CANDIDATE_MIXED_FILES: found when a directory is passed
     recs = []
     for si, sq in enumerate(seqs):
+        mode = si % 4          # 0: one prefix, one -o dir for all steps (every run lands on the previous output)
+                               # 1: a different prefix per step in one -o dir (outputs side by side; pairs that share a stem)
+                               # 2: inputs passed as directories, tool-default output dir, prefix per sequence or default
+                               # 3: files in sub-directories, no -o (default = directory of the input), relative paths
+        p0 = PREFIXES[si % len(PREFIXES)]
         steps = []
         for j, ix in enumerate(sq):
             f = b'' if ix is None else files[ix]
-            steps.append({'hex': f.hex(), 'name': names[(si + j) % len(names)] % j, 'frames': [] if ix is None else fr[ix]})
+            st = {'hex': f.hex(), 'frames': [] if ix is None else fr[ix], 'relative': (si + j) % 3 == 0}
+            if mode == 0:
+                st.update(name=fnames[(si + j) % 4] % j, arg='file', o='extracted', p=p0 if p0 is not None else 'out')
+            elif mode == 1:
+                pair = [('session', 'session1'), ('nav_', 'nav_log'), ('gps_l', 'gps_l1'), ('run', 'run.'), ('cap', 'cap.p1log'), ('x', 'x.p')][(si // 4) % 6]
+                st.update(name=fnames[(si + j) % 4] % j, arg='file', o='extracted', p=(pair + ('other%d' % j,))[j % 3])
+            elif mode == 2:
+                st.update(name='log%d/%s' % (j, dir_inputs[(si + j) % 3]), arg='dir', o=None, p=p0)
+            else:
+                st.update(name='sub/%s' % (fnames[(si + j) % 4] % j), arg='file', o=None, p=p0)
+            steps.append(st)
         recs.append({'id': str(si), 'steps': steps})
     res = run_impl(ctx, 'appseq', recs)
     tab = lambda t: ','.join('%s=%s' % (h, 'n' if v is None else v) for h, v in t.items()) or '-'
@@ -589,28 +607,45 @@ def app_sequences(ctx, model, cases):
         out = res[str(si)]
         if 'harness_error' in out:
             raise RuntimeError('c18 appseq harness error: %s\n%s' % (out['harness_error'], out.get('tb')))
-        prev_idx = None
+        state = {os.path.normpath(st['name']): st['hex'] for st in rec['steps']}
         for j, (st, o) in enumerate(zip(rec['steps'], out['steps'])):
             f = bytes.fromhex(st['hex'])
             want = b''.join(f[a:a + n] for a, n in st['frames']).hex() if st['frames'] else None
-            ctx.case(('appseq', si, j)); ctx.count('p1_extract.main-step:' + ('messages' if want else 'message-free') + (':over-existing' if j else ':fresh'))
-            case = {'sequence': [{'name': x['name'], 'hex': x['hex']} for x in rec['steps']], 'step': j, 'impl': o, 'spec_out': want}
+            outdir = st['o'] if st['o'] else (os.path.dirname(st['name']) or '.')
+            prefix = st['p'] if st['p'] is not None else 'fusion_engine'
+            opath = os.path.normpath(os.path.join(outdir, prefix + '.p1log'))
+            ipath = os.path.splitext(opath)[0] + '.p1i'
+            over = opath in state
+            prev_idx = state.get(ipath)
+            for k, v in o['changed'].items():
+                k = os.path.normpath(k)
+                if v is None:
+                    state.pop(k, None)
+                else:
+                    state[k] = v
+            ctx.case(('appseq', si, j)); ctx.count('p1_extract.main-step:' + ('messages' if want else 'message-free') + (':over-existing' if over else ':fresh'))
+            ctx.count('p1_extract.main-options:' + ('dir-input' if st['arg'] == 'dir' else 'file-input') + (',-o' if st['o'] else ',default-dir') + (',-p' if st['p'] is not None else ',default-prefix') + (',relative' if st['relative'] else ',absolute'))
+            case = {'sequence': [{k: v for k, v in x.items() if k != 'frames'} for x in rec['steps']], 'step': j, 'argv': o.get('argv'),
+                    'impl': {'ret': o['ret'], 'changed': o['changed']}, 'expected_output': opath, 'expected_index': ipath, 'spec_out': want}
             sig = {'obs': 'p1_extract-sequence', 'step': 'first' if j == 0 else 'later', 'input_has_messages': want is not None}
+            others = sorted(os.path.normpath(k) for k in o['changed'] if os.path.normpath(k) not in (opath, ipath))
             if 'exc' in o['ret'] or o['ret']['ok'] not in (None, 0):
-                ctx.violation(dict(sig, what='exit'), 'p1_extract.main() step %d of %r ended with %r' % (j, [x['name'] for x in rec['steps']], o['ret']), case)
-            elif o['out'] != want:
-                ctx.violation(dict(sig, what='output'), 'p1_extract step %d (%s, %d bytes) into an output location %s: the output file %s, expected %s'
-                              % (j, st['name'], len(f), 'used by an earlier step' if j else 'that is new',
-                                 'is absent' if o['out'] is None else 'has %d bytes' % (len(o['out']) // 2), 'none' if want is None else '%d bytes (the scanned messages)' % (len(want) // 2)), case)
+                ctx.violation(dict(sig, what='exit'), 'p1_extract.main() %r (step %d) ended with %r' % (o.get('argv'), j, o['ret']), case)
+            elif state.get(opath) != want:
+                got = state.get(opath)
+                ctx.violation(dict(sig, what='output'), 'p1_extract %s (step %d): the requested output %s %s, expected %s%s'
+                              % (' '.join(a if len(a) < 40 else '...' + a[-30:] for a in o.get('argv', [])), j, opath, 'is absent' if got is None else 'has %d bytes' % (len(got) // 2),
+                                 'no file' if want is None else '%d bytes (the scanned messages of this input)' % (len(want) // 2),
+                                 '; other files touched: %s' % others if others else ''), case)
+            elif others:
+                ctx.violation(dict(sig, what='other-files'), 'p1_extract (step %d) created / modified / deleted files other than the requested %s and its index: %s' % (j, opath, others), case)
             else:
                 t = {h: v for h, v in o['p1']}
                 m = parse_model_x(vf.run_lines(model, ['X %s %s' % (hx(f), tab(t))])[1][0])
-                exp_idx = m['idx'] if m['idx'] is not None else prev_idx
-                if want is not None and o['idx'] != m['idx']:
-                    ctx.violation(dict(sig, what='index'), 'p1_extract step %d: the .p1i is not the index of the new output' % j, case)
-                elif want is None and o['idx'] != exp_idx:
-                    ctx.broken_correspondence('p1_extract on a message-free input: model leaves the earlier .p1i untouched, implementation differs', case)
-            prev_idx = o['idx']
+                if want is not None and state.get(ipath) != m['idx']:
+                    ctx.violation(dict(sig, what='index'), 'p1_extract step %d: %s is not the index of the new output (times / types / offsets / marker)' % (j, ipath), case)
+                elif want is None and state.get(ipath) != prev_idx:
+                    ctx.broken_correspondence('p1_extract on a message-free input: model leaves an earlier .p1i untouched, implementation differs', case)
 
 
 def replay(ctx, rec):
@@ -622,14 +657,19 @@ def replay(ctx, rec):
         steps = []
         for x in case['sequence']:
             l = vf.run_lines(model, ['F ' + (x['hex'] or '-')])[1][0]
-            steps.append({'hex': x['hex'], 'name': x['name'], 'frames': [] if l == '-' else [[int(a) for a in y.split(':')] for y in l.split(',')]})
+            steps.append(dict(x, frames=[] if l == '-' else [[int(a) for a in y.split(':')] for y in l.split(',')]))
         out = run_impl(ctx, 'appseq', [{'id': '0', 'steps': steps}])['0']
         bad = 0
+        state = {}
         for j, (st, o) in enumerate(zip(steps, out['steps'])):
             f = bytes.fromhex(st['hex'])
             want = b''.join(f[a:a + n] for a, n in st['frames']).hex() if st['frames'] else None
-            print('step %d %s: IMPL ret %r out %s idx %s | SPEC out %s' % (j, st['name'], o['ret'], o['out'] and len(o['out']) // 2, o['idx'] and len(o['idx']) // 2, want and len(want) // 2))
-            bad += o['out'] != want
+            outdir = st['o'] if st['o'] else (os.path.dirname(st['name']) or '.')
+            opath = os.path.normpath(os.path.join(outdir, (st['p'] if st['p'] is not None else 'fusion_engine') + '.p1log'))
+            for k, v in o['changed'].items():
+                state[os.path.normpath(k)] = v
+            print('step %d argv %r: IMPL ret %r, files touched %r | SPEC: %s = %s' % (j, o.get('argv'), o['ret'], {k: (v and len(v) // 2) for k, v in o['changed'].items()}, opath, want and len(want) // 2))
+            bad += state.get(opath) != want
         return 1 if bad else 0
     pieces = case['pieces']
     found = evaluate(ctx, model, [pieces], record=False)[0]
